@@ -9,6 +9,9 @@ FIXED_EXTRA = [
  ('C15', 'tabulates covariates that are shared by all samples', 'PopulationPredictiveModel.sample(return_df=True) with one covariate row for n_samples > 1 raises "All arrays must be of the same length"'),
  ('C03', 'hierarchical sensitivities of a composed population model nested', 'a ComposedPopulationModel nested in another one with a pooled or heterogeneous dimension: HierarchicalLogLikelihood.evaluateS1 raises "cannot reshape array" while __call__ is finite'),
  ('C05', 'passes its number of individuals on to all sub-models', 'ComposedPopulationModel built from a HeterogeneousModel(n_ids=k) and a nested composed model: the nested model stays at one individual (set_n_ids(k) returns early) and compute_sensitivities(reduce=True) raises a broadcast ValueError'),
+ ('C19', 'PooledModel.sample returns a new array', 'PooledModel.sample returns a broadcast view of its parameter array; through a ReducedPopulationModel that is the wrapper\'s value buffer, so samples returned earlier change when the model is evaluated at other parameters'),
+ ('C19', 'compute_individual_parameters does not hand out its value buffer', 'ReducedPopulationModel(Heterogeneous/Pooled).compute_individual_parameters returns a view of the wrapper\'s value buffer: the returned individual parameters change when the model is evaluated at other parameters afterwards'),
+ ('C08', 'set_parameter_names keeps the names of fixed parameters', 'ReducedPopulationModel.set_parameter_names on the free parameters renames the fixed ones to "<name> <dim> <dim>": a fixed parameter can no longer be released (or re-fixed) under its name, fix_parameters({name: None}) is silently ignored'),
  ('C17', 'forwards set_n_ids to the population model it wraps', 'a CovariatePopulationModel used on its own (not inside a ComposedPopulationModel) in a HierarchicalLogLikelihood raises "cannot reshape array" for more than one individual'),
 ]
 OPEN = [
